@@ -177,8 +177,136 @@ static void apply_restrict(hwloc_topology_t t, char mode, const char *arg) {
   hwloc_topology_restrict(t, set, flags);
   hwloc_bitmap_free(set);
 }
+
+/* ------------------------------------------------------------------ CPU kinds / memory attributes (B9) */
+/* what the public API reports about CPU kinds and memory attribute values of `t`: one X* line each, sent to the model after the dump */
+static unsigned dump_extras(FILE *f, hwloc_topology_t t) {
+  unsigned lines = 0;
+  int nr = hwloc_cpukinds_get_nr(t, 0);
+  hwloc_bitmap_t set = hwloc_bitmap_alloc();
+  for (int i = 0; i < nr; i++) {
+    int eff = 0; struct hwloc_infos_s *infos = NULL;
+    if (hwloc_cpukinds_get_info(t, (unsigned) i, set, &eff, &infos, 0) < 0) break;
+    fprintf(f, "XKIND"); dump_set(f, set); fprintf(f, " %d %u", eff, infos ? infos->count : 0);
+    for (unsigned j = 0; infos && j < infos->count; j++) {
+      char *a = esc(infos->array[j].name, strlen(infos->array[j].name)), *b = esc(infos->array[j].value, strlen(infos->array[j].value));
+      fprintf(f, " %s %s", a, b); free(a); free(b);
+    }
+    fputc('\n', f); lines++;
+  }
+  hwloc_bitmap_free(set);
+  int nn = hwloc_get_nbobjs_by_type(t, HWLOC_OBJ_NUMANODE);
+  for (hwloc_memattr_id_t id = 0; ; id++) {
+    const char *name; unsigned long fl = 0;
+    if (hwloc_memattr_get_name(t, id, &name) < 0) break;
+    hwloc_memattr_get_flags(t, id, &fl);
+    char *en = esc(name, strlen(name)); fprintf(f, "XATTR %u %lu %s\n", id, fl, en); free(en); lines++;
+    for (int k = 0; k < nn; k++) {
+      hwloc_obj_t n = hwloc_get_obj_by_type(t, HWLOC_OBJ_NUMANODE, (unsigned) k);
+      if (fl & HWLOC_MEMATTR_FLAG_NEED_INITIATOR) {
+        unsigned nbi = 0;
+        if (hwloc_memattr_get_initiators(t, id, n, 0, &nbi, NULL, NULL) < 0) { fprintf(f, "XINIERR %u %llu\n", id, (unsigned long long) n->gp_index); lines++; continue; }
+        struct hwloc_location *in = calloc(nbi + 1, sizeof *in); hwloc_uint64_t *v = calloc(nbi + 1, sizeof *v);
+        if (hwloc_memattr_get_initiators(t, id, n, 0, &nbi, in, v) < 0) { fprintf(f, "XINIERR %u %llu\n", id, (unsigned long long) n->gp_index); lines++; free(in); free(v); continue; }
+        fprintf(f, "XINI %u %llu %u", id, (unsigned long long) n->gp_index, nbi);
+        for (unsigned j = 0; j < nbi; j++) {
+          if (in[j].type == HWLOC_LOCATION_TYPE_CPUSET) { fprintf(f, " c"); dump_set(f, in[j].location.cpuset); fprintf(f, " %llu", (unsigned long long) v[j]); }
+          else fprintf(f, " o %d %llu %llu", (int) in[j].location.object->type, (unsigned long long) in[j].location.object->gp_index, (unsigned long long) v[j]);
+        }
+        fputc('\n', f); lines++; free(in); free(v);
+      } else {
+        hwloc_uint64_t v = 0;
+        if (!hwloc_memattr_get_value(t, id, n, NULL, 0, &v)) { fprintf(f, "XVAL %u %llu %llu\n", id, (unsigned long long) n->gp_index, (unsigned long long) v); lines++; }
+      }
+    }
+  }
+  return lines;
+}
+
+/* LOAD K: a synthetic topology decorated (deterministically from <seed>) with CPU kinds, memory attribute values, NUMA subtypes and
+ * MemoryTier infos, exported to XML in the scratch directory; the XML file is what the tools (and the harness) load */
+static uint64_t kx_state;
+static uint64_t kx_next(void) { uint64_t z = (kx_state += 0x9e3779b97f4a7c15ULL); z = (z ^ (z >> 30)) * 0xbf58476d1ce4e5b9ULL; z = (z ^ (z >> 27)) * 0x94d049bb133111ebULL; return z ^ (z >> 31); }
+static unsigned kx_below(unsigned n) { return n ? (unsigned) (kx_next() % n) : 0; }
+static int kx_chance(unsigned pct) { return kx_below(100) < pct; }
+static hwloc_obj_t kx_obj_with_cpus(hwloc_topology_t t) {
+  int depth = hwloc_topology_get_depth(t); int d = (int) kx_below((unsigned) depth);
+  unsigned n = hwloc_get_nbobjs_by_depth(t, d); return hwloc_get_obj_by_depth(t, d, kx_below(n));
+}
+static int build_decorated(uint64_t seed, const char *synthetic, char *path, size_t cap) {
+  hwloc_topology_t t; kx_state = seed * 0x2545F4914F6CDD1DULL + 12345;
+  if (hwloc_topology_init(&t) < 0) return -1;
+  hwloc_topology_set_all_types_filter(t, HWLOC_TYPE_FILTER_KEEP_ALL);
+  if (hwloc_topology_set_synthetic(t, synthetic) < 0 || hwloc_topology_load(t) < 0) { hwloc_topology_destroy(t); return -1; }
+  int npu = hwloc_get_nbobjs_by_type(t, HWLOC_OBJ_PU), nn = hwloc_get_nbobjs_by_type(t, HWLOC_OBJ_NUMANODE), ncore = hwloc_get_nbobjs_by_type(t, HWLOC_OBJ_CORE);
+  /* CPU kinds: 0..4 classes of whole cores (or of PUs), some PUs possibly in no kind, infos shared between kinds sometimes */
+  unsigned nk = kx_chance(12) ? 0 : 1 + kx_below(4);
+  static const char *ctype[] = {"IntelAtom", "IntelCore", "big", "LITTLE"};
+  static const char *names[] = {"CoreType", "FrequencyMaxMHz", "Model", "x"};
+  for (unsigned k = 0; k < nk; k++) {
+    hwloc_bitmap_t set = hwloc_bitmap_alloc();
+    int bycore = ncore > 0 && kx_chance(50);
+    int n = bycore ? ncore : npu;
+    for (int i = 0; i < n; i++) if ((unsigned) (kx_below(nk + (kx_chance(20) ? 1 : 0))) == k) {
+      hwloc_obj_t o = hwloc_get_obj_by_type(t, bycore ? HWLOC_OBJ_CORE : HWLOC_OBJ_PU, (unsigned) i); hwloc_bitmap_or(set, set, o->cpuset); }
+    if (hwloc_bitmap_iszero(set)) { hwloc_obj_t o = hwloc_get_obj_by_type(t, HWLOC_OBJ_PU, kx_below((unsigned) npu)); hwloc_bitmap_or(set, set, o->cpuset); }
+    struct hwloc_info_s arr[3]; struct hwloc_infos_s infos = { arr, 0, 3 }; char val[3][32];
+    unsigned ni = kx_below(4);
+    for (unsigned j = 0; j < ni; j++) {
+      unsigned w = kx_below(4);
+      if (w == 0) snprintf(val[j], sizeof val[j], "%s", ctype[kx_below(4)]); else if (w == 1) snprintf(val[j], sizeof val[j], "%u", 1000 + 500 * kx_below(4));
+      else if (w == 2) snprintf(val[j], sizeof val[j], "m%u", kx_below(2)); else snprintf(val[j], sizeof val[j], "%s", kx_chance(50) ? "y" : "a=b");
+      arr[j].name = (char *) names[w]; arr[j].value = val[j]; infos.count++;
+    }
+    hwloc_cpukinds_register(t, set, kx_chance(60) ? (int) kx_below(5) : -1, &infos, 0);
+    hwloc_bitmap_free(set);
+  }
+  /* NUMA subtypes and MemoryTier infos */
+  if (kx_chance(50)) for (int i = 0; i < nn; i++) {
+    hwloc_obj_t n = hwloc_get_obj_by_type(t, HWLOC_OBJ_NUMANODE, (unsigned) i);
+    if (kx_chance(60)) { static const char *st[] = {"DRAM", "HBM", "NVM", "MCDRAM"}; free(n->subtype); n->subtype = strdup(st[kx_below(kx_chance(80) ? 2 : 4)]); }
+    if (kx_chance(60)) { char b[8]; snprintf(b, sizeof b, "%u", kx_below(3)); hwloc_obj_add_info(n, "MemoryTier", b); }
+  }
+  /* memory attribute values: Bandwidth / Latency / ReadBandwidth with cpuset initiators, custom attributes with and without initiator */
+  hwloc_memattr_id_t ids[6]; unsigned nid = 0;
+  if (kx_chance(80)) ids[nid++] = HWLOC_MEMATTR_ID_BANDWIDTH;
+  if (kx_chance(70)) ids[nid++] = HWLOC_MEMATTR_ID_LATENCY;
+  if (kx_chance(30)) ids[nid++] = HWLOC_MEMATTR_ID_READ_BANDWIDTH;
+  if (kx_chance(60)) { hwloc_memattr_id_t id; if (!hwloc_memattr_register(t, "Speed", HWLOC_MEMATTR_FLAG_HIGHER_FIRST, &id)) ids[nid++] = id; }
+  if (kx_chance(40)) { hwloc_memattr_id_t id; if (!hwloc_memattr_register(t, "cost", HWLOC_MEMATTR_FLAG_LOWER_FIRST, &id)) ids[nid++] = id; }
+  if (kx_chance(40)) { hwloc_memattr_id_t id; if (!hwloc_memattr_register(t, "Hops", HWLOC_MEMATTR_FLAG_LOWER_FIRST | HWLOC_MEMATTR_FLAG_NEED_INITIATOR, &id)) ids[nid++] = id; }
+  for (unsigned a = 0; a < nid; a++) {
+    unsigned long fl = 0; hwloc_memattr_get_flags(t, ids[a], &fl);
+    unsigned skip_pct = kx_chance(50) ? 0 : 30, range = kx_chance(50) ? 3 : 1000;
+    for (int i = 0; i < nn; i++) {
+      hwloc_obj_t n = hwloc_get_obj_by_type(t, HWLOC_OBJ_NUMANODE, (unsigned) i);
+      if (kx_chance(skip_pct)) continue;
+      if (fl & HWLOC_MEMATTR_FLAG_NEED_INITIATOR) {
+        unsigned ninit = 1 + kx_below(kx_chance(70) ? 1 : 3);
+        for (unsigned j = 0; j < ninit; j++) {
+          struct hwloc_location loc; loc.type = HWLOC_LOCATION_TYPE_CPUSET;
+          hwloc_obj_t o = kx_chance(50) ? n : kx_obj_with_cpus(t);
+          loc.location.cpuset = o->cpuset;
+          if (hwloc_bitmap_iszero(o->cpuset)) continue;
+          hwloc_memattr_set_value(t, ids[a], n, &loc, 0, 1 + kx_below(range));
+        }
+      } else hwloc_memattr_set_value(t, ids[a], n, NULL, 0, 1 + kx_below(range));
+    }
+  }
+  path_in_tmp(path, cap, "decorated.xml");
+  unlink(path);
+  int err = hwloc_topology_export_xml(t, path, 0);
+  hwloc_topology_destroy(t);
+  return err;
+}
 static int load_topology(char kind, char mode, const char *restr, const char *arg) {
+  static char kpath[4200];
   unload();
+  if (kind == 'K') {             /* "<seed> <synthetic description>": build, decorate, export; the XML file is the input from here on */
+    char *end; unsigned long long seed = strtoull(arg, &end, 10);
+    if (end == arg || *end != ' ' || build_decorated(seed, end + 1, kpath, sizeof kpath) < 0) return -1;
+    kind = 'X'; arg = kpath;
+  }
   topo = load_as(kind, mode, arg, NULL, 0);
   if (!topo) return -1;
   if (restr && *restr) { if (mode != 'A' && mode != 'D') { unload(); return -1; } apply_restrict(topo, mode, restr); }
@@ -534,6 +662,7 @@ static void do_load_line(const char *line) {
   fflush(fmin);
   for (unsigned i = 0; i + 1 < lines; i++) out_c(".");
   out_c("T ok");
+  if (mode == 'A') { unsigned xl = dump_extras(fmin, topo); fflush(fmin); for (unsigned i = 0; i < xl; i++) out_c("."); }
 }
 #define MAXTOK 96
 static void do_op_line(const char *line) {
@@ -639,9 +768,12 @@ static void gen_restrict(char *out, size_t cap) {
 static int gen_load(char mode, int want_xml) {
   char line[8192], restr[600] = "", mt[2048];
   for (int tries = 0; tries < 20; tries++) {
-    char kind = (want_xml && nxml) ? 'X' : 'S'; char syn[2048]; const char *input;
+    char kind = (want_xml && nxml) ? 'X' : 'S'; char syn[2048], ksyn[2200]; const char *input;
     if (kind == 'X') input = xml_list[rng_below(nxml)];
     else { if (mode == 'L' && rng_chance(12)) { gen_synthetic_long(syn, sizeof syn); stat_hit("lstopo:long-synthetic-input"); } else gen_synthetic(syn, sizeof syn); input = syn; }
+    if (kind == 'S' && mode == 'A' && rng_chance(45)) {     /* decorated with CPU kinds / memory attributes, given to the tool as XML */
+      snprintf(ksyn, sizeof ksyn, "%u %s", (unsigned) rng_below(1000000), syn); kind = 'K'; input = ksyn;
+    }
     if (load_topology(kind, mode, NULL, input) < 0) continue;
     restr[0] = 0;
     if ((mode == 'A' || mode == 'D') && rng_chance(28)) { gen_restrict(restr, sizeof restr); if (load_topology(kind, mode, restr, input) < 0) continue; }
@@ -736,6 +868,45 @@ static void gen_out_level(char *out, size_t cap) {
   if (rng_chance(8)) { static const char *n[] = {"zzz", "", "cpukind", "memorytier", "core:0", "99", "-1", "group", "l2[", "pu.core"}; snprintf(out, cap, "%s", n[rng_below(10)]); return; }
   gen_type(out, cap, rng_chance(70));
 }
+
+/* --- CPU kind / memory attribute options (B9) --- */
+static void gen_simple_loc(char *out, size_t cap, int nodeset_input);
+static void gen_cpukind_arg(char *out, size_t cap) {
+  int nr = hwloc_cpukinds_get_nr(topo, 0); unsigned k = rng_below(100);
+  if (k < 45) { snprintf(out, cap, "%u", rng_below((unsigned) (nr > 0 ? nr : 0) + 2)); return; }
+  if (k < 85 && nr > 0) {
+    struct hwloc_infos_s *infos = NULL; hwloc_bitmap_t set = hwloc_bitmap_alloc(); int eff;
+    hwloc_cpukinds_get_info(topo, rng_below((unsigned) nr), set, &eff, &infos, 0); hwloc_bitmap_free(set);
+    if (infos && infos->count) { unsigned j = rng_below(infos->count);
+      if (!strchr(infos->array[j].name, ' ') && strlen(infos->array[j].value) < 60) { snprintf(out, cap, "%s=%s%s", infos->array[j].name, infos->array[j].value, rng_chance(8) ? "x" : ""); return; } }
+  }
+  static const char *other[] = {"CoreType=IntelCore", "CoreType=nosuch", "=", "x=", "=y", "x", "1x", "00", "7=7", "FrequencyMaxMHz=1500", "nosuch=1", "-1", "", "Model=m0"};
+  snprintf(out, cap, "%s", other[rng_below(14)]);
+}
+static void gen_memattr_arg(char *out, size_t cap) {
+  unsigned n = 0; const char *name = NULL; while (!hwloc_memattr_get_name(topo, n, &name)) n++;
+  unsigned k = rng_below(100); char base[128];
+  if (k < 60) { unsigned id = rng_below(n); hwloc_memattr_get_name(topo, id, &name); snprintf(base, sizeof base, "%s", name);
+    if (rng_chance(30)) for (char *p = base; *p; p++) *p = (char) (rng_chance(50) ? toupper((unsigned char) *p) : tolower((unsigned char) *p)); }
+  else if (k < 80) snprintf(base, sizeof base, "%u", rng_below(n + 2));
+  else { static const char *o[] = {"Bandwidth", "latency", "Speed", "cost", "Hops", "nosuch", "", "2x", "capacity", "LOCALITY", "99"}; snprintf(base, sizeof base, "%s", o[rng_below(11)]); }
+  static const char *suf[] = {"", "", "", ",default", ",strict", ",default,strict", ",strict,default", ",default,default", ",bogus"};
+  snprintf(out, cap, "%s%s", base, suf[rng_below(9)]);
+}
+static void gen_local_flags_arg(char *out, size_t cap) {
+  static const char *o[] = {"0", "1", "2", "3", "4", "5", "6", "7", "8", "12", "all", "ALL", "larger", "smaller", "LARGER_LOCALITY", "larger|smaller", "smaller,larger", "all+larger",
+    "locality", "hwloc_local_numanode_flag_all", "l", "all$", "ality$", "zzz", "", "none", "NONE", ",all", "smaller,smaller", "larger,,all", "flag_a", "$", "all|zzz", "ger_loc"};
+  snprintf(out, cap, "%s", o[rng_below(sizeof o / sizeof *o)]);
+}
+/* adds one of the memory options (with its argument) */
+static void add_mem_option(struct args *a) {
+  char buf[256]; unsigned k = rng_below(100);
+  if (k < 25) a_add(a, "--default-nodes");
+  else if (k < 50) a_add(a, "--local-memory");
+  else if (k < 72) { a_add(a, "--local-memory-flags"); gen_local_flags_arg(buf, sizeof buf); a_add(a, buf); }
+  else { a_add(a, "--best-memattr"); gen_memattr_arg(buf, sizeof buf); a_add(a, buf); }
+}
+static int has_attrs(void) { return cur_kind == 'X' || hwloc_cpukinds_get_nr(topo, 0) > 0; }
 static void gen_calc_args(struct args *a, int *has_v) {
   static const char *flags[] = {"-p", "-l", "--pi", "--po", "--li", "--lo", "--physical", "--logical", "-n", "--ni", "--no", "--nodeset", "--oo",
     "--object-output", "--single", "--taskset", "-q", "--quiet", "--no-smt", "--no-smt=1", "--no-smt=0", "--largest", "--physical-input", "--nodeset-output"};
@@ -744,11 +915,18 @@ static void gen_calc_args(struct args *a, int *has_v) {
   *has_v = 0;
   unsigned nloc = rng_chance(6) ? 0 : 1 + rng_below(4), nopt = rng_below(rng_chance(70) ? 3 : 6);
   unsigned total = nloc + nopt;
+  if (rng_chance(has_attrs() ? 22 : 5)) {       /* topology options come first: --cpukind, once or twice */
+    for (unsigned r = 0, n = rng_chance(85) ? 1 : 2; r < n; r++) { a_add(a, "--cpukind"); gen_cpukind_arg(buf, sizeof buf); a_add(a, buf); }
+    stat_hit("calc:cpukind-option");
+    if (nopt < 2 && rng_chance(50)) { nopt += 1; total += 1; }
+  }
   for (unsigned i = 0; i < total; i++) {
     int is_opt = nopt && (!nloc || rng_below(nloc + nopt) < nopt);
     if (is_opt) {
       nopt--;
       unsigned k = rng_below(100);
+      if (rng_chance(has_attrs() ? 22 : 6)) { add_mem_option(a); stat_hit("calc:mem-option"); continue; }
+      if (rng_chance(has_attrs() ? 8 : 2)) { a_add(a, rng_chance(50) ? "-N" : "-I"); a_add(a, rng_chance(50) ? "cpukind" : (rng_chance(50) ? "memorytier" : (rng_chance(50) ? "CPUKinds" : "MemoryTier"))); stat_hit("calc:pseudo-level"); continue; }
       if (k < 50) { const char *f = flags[rng_below(sizeof flags / sizeof *flags)]; a_add(a, f); }
       else if (k < 60) { a_add(a, rng_chance(50) ? "--cof" : (rng_chance(50) ? "--cpuset-output-format" : "--nof")); a_add(a, fmts[rng_below(rng_chance(90) ? 4 : 5)]); }
       else if (k < 66) { a_add(a, rng_chance(50) ? "--cif" : "--cpuset-input-format"); a_add(a, fmts[rng_chance(90) ? rng_below(3) : 3 + rng_below(2)]); }
@@ -778,8 +956,31 @@ static int slow_args(struct args *a) {
     if (strstr(a->v[i], "0x") && strlen(a->v[i]) > 7) hex = 1; }
   return list && hex;
 }
+/* a focused run on a topology with CPU kinds / memory attributes: valid locations naming one or two objects, so that the kind filter,
+ * the local-node selection and the best-attribute filter see non-trivial sets */
+static void gen_calc_attr(void) {
+  static char line[1 << 16]; struct args a = {0}; char buf[512];
+  int with_kind = rng_chance(45);
+  if (with_kind) { a_add(&a, "--cpukind"); gen_cpukind_arg(buf, sizeof buf); a_add(&a, buf); }
+  unsigned nloc = 1 + rng_below(2), k = rng_below(100);
+  /* the kind filter comes before --no-smt and --single: a kind that misses the first PU of a core / of the set tells the orders apart */
+  if (with_kind && rng_chance(40)) { static const char *f[] = {"--no-smt", "--no-smt=1", "--no-smt=0", "--single", "--single"}; a_add(&a, f[rng_below(5)]); }
+  for (unsigned i = 0; i < nloc; i++) { gen_simple_loc(buf, sizeof buf, 0); if (i == 0 && (buf[0] == 'x' || buf[0] == '~' || buf[0] == '^')) memmove(buf, buf + 1, strlen(buf)); a_add(&a, buf); }
+  if (k < 55) { add_mem_option(&a); if (rng_chance(35)) add_mem_option(&a); }
+  else if (k < 70) { a_add(&a, rng_chance(50) ? "-N" : "-I"); a_add(&a, rng_chance(50) ? "cpukind" : "memorytier"); }
+  else if (k < 80) a_add(&a, rng_chance(50) ? "--single" : "--no-smt");
+  else if (k < 90) { a_add(&a, "-I"); a_add(&a, rng_chance(50) ? "numa" : "pu"); }
+  if (rng_chance(25)) a_add(&a, "--oo");
+  if (rng_chance(15)) a_add(&a, rng_chance(50) ? "-p" : "--po");
+  if (rng_chance(10)) a_add(&a, "-n");
+  if (rng_chance(10)) { a_add(&a, "--sep"); a_add(&a, ";"); }
+  stat_hit("calc:attr-focused");
+  int off = app(line, 0, sizeof line, "CALC a %%_");
+  emit_args(line, off, sizeof line, &a); a_free(&a);
+}
 static void gen_calc(void) {
   static char line[1 << 16]; struct args a = {0}; int has_v;
+  if (has_attrs() && rng_chance(cur_restrict[0] ? 15 : 30)) { gen_calc_attr(); return; }
   do { a_free(&a); gen_calc_args(&a, &has_v); } while (slow_args(&a));
   /* stdin: used when no location is accepted on the command line */
   char in[4096] = ""; int ioff = 0;
@@ -838,7 +1039,8 @@ static void gen_stdin_opts(struct args *a, int allow_verbose, int *nodeset_input
     unsigned n = 1 + rng_below(3); snprintf(buf, sizeof buf, "%s%s%s%s%s", t1, n > 1 ? "." : "", n > 1 ? t2 : "", n > 2 ? "." : "", n > 2 ? t3 : "");
     a_add(&g[ng], rng_chance(50) ? "-H" : "--hierarchical"); a_add(&g[ng++], buf); mode = "-H";
   } else if (k < 73) { a_add(&g[ng++], "--largest"); mode = "largest"; }
-  else if (k < 77) { a_add(&g[ng++], rng_chance(50) ? "--local-memory" : "--default-nodes"); mode = "set+memopt"; }
+  else if (k < 80) { add_mem_option(&g[ng++]); if (rng_chance(30)) add_mem_option(&g[ng++]); mode = "set+memopt"; }
+  else if (k < 84) { a_add(&g[ng], rng_chance(50) ? "-N" : "-I"); a_add(&g[ng++], rng_chance(60) ? "cpukind" : "memorytier"); mode = "pseudo-level"; }
   *nodeset_input = 0;
   if (rng_chance(35)) {      /* a nodeset input/output flag */
     unsigned f = rng_below(5);
@@ -894,6 +1096,10 @@ static void gen_stdin_text(char *in, int cap, int nodeset_input, int for_sl, int
 static void gen_calc_stdin(int sl) {
   static char line[1 << 16], in[1 << 14]; struct args a = {0}; int ni; char bucket[64]; unsigned nl;
   do { a_free(&a); gen_stdin_opts(&a, !sl, &ni, bucket, sizeof bucket); } while (slow_args(&a));
+  if (!sl && rng_chance(has_attrs() ? 14 : 3) && a.n < MAXARG - 4) {      /* --cpukind <arg> in front (a topology option; the SL runs put -q first) */
+    char kb[256]; gen_cpukind_arg(kb, sizeof kb);
+    memmove(a.v + 2, a.v, (size_t) a.n * sizeof *a.v); a.v[0] = strdup("--cpukind"); a.v[1] = strdup(kb); a.n += 2; stat_hit("stdin:cpukind-option");
+  }
   int cif_list = 0; for (int i = 1; i < a.n; i++) if (!strcmp(a.v[i], "list") && !strcmp(a.v[i - 1], "--cif")) cif_list = 1;
   gen_stdin_text(in, sizeof in, ni, sl, cif_list, &nl);
   stat_hit(bucket);
